@@ -15,6 +15,7 @@ func Run(r *core.Report, env *build.Env) {
 	s := &goh.Suite{R: r, Env: env, Patterns: []string{"./src/parser/..."}, Files: map[string]string{
 		"src/parser/zz_verif_c20.go":             "parser/zz_verif_c20.go",
 		"src/parser/ordered_map/zz_verif_c20.go": "ordered_map/zz_verif_c20.go",
+		"src/parser/zz_verif_c09c.go":            "parser/zz_verif_c09c.go",
 	}}
 	if !s.Load() {
 		return
@@ -40,6 +41,7 @@ func Run(r *core.Report, env *build.Env) {
 			goh.Harness{Pkg: pk, Func: "VerifC20Trie3", Bound: "3 aliases 'word <p>' over the pool"},
 		)
 	}
+	hs = append(hs, goh.Harness{Pkg: pk, Func: "VerifC09InstantiationOrder", Bound: "whole frontend: 3 earlier instantiations x 3 later declarations (Kombination constructor, function aliases) x 4 later uses of generic functions; the later use is judged alike with and without the earlier instantiation"})
 	for _, h := range hs {
 		s.Run(h)
 	}
